@@ -50,7 +50,9 @@ TEXT = {
           "without force. Tied to the code by AST facts (context = store of the acknowledged momentum + account store at "
           "Previous(); InsertChain: pooled patch or execute + ForceAdd; AddAccountBlocks: plain add) and by replaying the "
           "abstract trace of every follower of the sync stream on the model (every gossip / delivery verdict, the pool "
-          "content after each, equal final ledgers).",
+          "content after each, equal final ledgers). The consensus statistics a pillar reader answers (weights of every period, "
+          "statistics and delegations of every epoch) are compared warm / restarted / cold on nodes whose epochs of several "
+          "periods finish while the weights change (epoch-fold stream, model-free; stored point bytes decoded by the model).",
   "design_ref": "§3 C02",
   "note": "Hash functions are parameters; determinism of the Go VM itself is correspondence (multi-node) + AST fact: in the "
           "node-level model the VM is a parameter, and schedule independence GIVEN a deterministic VM is a theorem. "
@@ -294,7 +296,10 @@ TEXT = {
           "AST on every run; all tied to the tree by three differential streams (election, ticker, mverify on a real mock "
           "chain with every single-field mutation and wrongly signed momentums) with model-free monitors, including "
           "persistence round trips of the consensus store (protobuf + leveldb, evicted LRU, re-opened directory), a node "
-          "restarted on its persistent consensus database every round, and every election repeated while other goroutines "
+          "restarted on its persistent consensus database every round, consensus instances started mid-tick on an empty "
+          "consensus database after weight changes and fed by the chain's momentum events, the node's own production path "
+          "(GenerateMomentum / a pillar manager asked with every key and instant: only the elected pillar gets a signed "
+          "momentum), and every election repeated while other goroutines "
           "draw from the process-wide math/rand generator (regenerated fact: no reference to it in the deciding packages). "
           "Consensus store (Props.C05Store, shared with C11): a proto3 codec model of ElectionData / Point on the wire model of "
           "C13 with round-trip theorems (election_roundtrip, point_roundtrip: two different producers, weight 0 = empty bytes, "
